@@ -212,3 +212,16 @@ Proof.
     + rewrite (foreign_arch_default le k ai pol p ev H L Ha), (foreign_arch_default le k ai pol' p' ev H' L' Ha).
       rewrite Hd. reflexivity.
 Qed.
+
+(** the eight relations as four complementary pairs over one total unsigned order (C02) *)
+Lemma rel_partition a v :
+  rel OpNe a v = negb (rel OpEq a v) /\ rel OpLe a v = negb (rel OpGt a v) /\ rel OpGe a v = negb (rel OpLt a v) /\
+  rel OpNSet a v = negb (rel OpSet a v) /\
+  rel OpGe a v = rel OpGt a v || rel OpEq a v /\ rel OpLe a v = rel OpLt a v || rel OpEq a v /\
+  (if rel OpLt a v then 1 else 0) + (if rel OpEq a v then 1 else 0) + (if rel OpGt a v then 1 else 0) = 1.
+Proof.
+  unfold rel.
+  destruct (N.eqb_spec a v) as [E|E]; destruct (N.ltb_spec v a) as [G|G]; destruct (N.ltb_spec a v) as [L|L];
+    destruct (N.leb_spec v a) as [GE|GE]; destruct (N.leb_spec a v) as [LE|LE];
+    try lia; rewrite ?negb_involutive; repeat split; reflexivity.
+Qed.
